@@ -338,7 +338,12 @@ func (e *Engine) evalWrapper(fr *Frame, st, old *State, fn *ssa.Function, args [
 	child.depth = 0
 	e.bindParams(child, args)
 	tmp := st.clone()
-	res, _ := e.runBody(child, tmp)
+	tmp.cond = e.tb.True() // ghost code is pure: evaluate it independently of the path condition
+	e.ghostDepth++
+	res, _ := func() ([]Val, *State) {
+		defer func() { e.ghostDepth-- }()
+		return e.runBody(child, tmp)
+	}()
 	if len(res) != 1 {
 		unsupported("wrapper %s returned %d values", fn.Name(), len(res))
 	}
@@ -430,7 +435,7 @@ func (e *Engine) applyContract(fr *Frame, st *State, ins ssa.Instruction, c *Con
 			key := e.curFunc + "/pre"
 			e.safetyN[key+name]++
 			label := fmt.Sprintf("%s.%s#%d", name, cl.Label, e.safetyN[key+name])
-			e.obls = append(e.obls, &Obligation{Name: e.curFunc + "/pre/" + label, Kind: "pre", Func: e.curFunc, Label: label, Cond: st.cond, Goal: g,
+			e.obls = e.appendObl(&Obligation{Name: e.curFunc + "/pre/" + label, Kind: "pre", Func: e.curFunc, Label: label, Cond: st.cond, Goal: g,
 				NFacts: len(e.facts), Pos: e.prog.Fset.Position(ins.Pos()), Clause: cl})
 			e.addFact(st, g)
 		}
@@ -494,7 +499,7 @@ func (e *Engine) applyIfaceContract(fr *Frame, st *State, ins ssa.Instruction, c
 			key := e.curFunc + "/pre" + name
 			e.safetyN[key]++
 			label := fmt.Sprintf("%s.%s#%d", name, cl.Label, e.safetyN[key])
-			e.obls = append(e.obls, &Obligation{Name: e.curFunc + "/pre/" + label, Kind: "pre", Func: e.curFunc, Label: label, Cond: st.cond, Goal: g,
+			e.obls = e.appendObl(&Obligation{Name: e.curFunc + "/pre/" + label, Kind: "pre", Func: e.curFunc, Label: label, Cond: st.cond, Goal: g,
 				NFacts: len(e.facts), Pos: e.prog.Fset.Position(ins.Pos()), Clause: cl})
 			e.addFact(st, g)
 		}
